@@ -4,10 +4,12 @@
 package sim
 
 import (
+	"reflect"
 	"sort"
 	"time"
 
 	"k8s.io/apimachinery/pkg/api/meta"
+	"k8s.io/apimachinery/pkg/runtime"
 	"k8s.io/client-go/tools/cache"
 )
 
@@ -48,6 +50,7 @@ type FakeInformer struct {
 	queues   [][]notification // per handler: notifications not yet run (handler lag)
 	noResync []bool           // per handler: registered with resync period 0 (no periodic resync)
 	Synced   bool
+	snap     map[string]runtime.Object // key -> copy taken at CacheSet (Drifted)
 
 	// ReplayOnRegister makes AddEventHandler queue, for the new handler, one add notification
 	// per object that is in the cache at that moment.  This is what client-go does: a handler
@@ -129,8 +132,42 @@ func (f *FakeInformer) GetIndexer() cache.Indexer { return f.indexer }
 func (f *FakeInformer) NumHandlers() int { return len(f.handlers) }
 
 // CacheOnly updates the cache without notifying handlers.
-func (f *FakeInformer) CacheSet(obj interface{}) { _ = f.indexer.Update(obj) }
-func (f *FakeInformer) CacheDel(obj interface{}) { _ = f.indexer.Delete(obj) }
+func (f *FakeInformer) CacheSet(obj interface{}) {
+	_ = f.indexer.Update(obj)
+	if ro, ok := obj.(runtime.Object); ok {
+		if k, err := cache.MetaNamespaceKeyFunc(obj); err == nil {
+			if f.snap == nil {
+				f.snap = map[string]runtime.Object{}
+			}
+			f.snap[k] = ro.DeepCopyObject()
+		}
+	}
+}
+func (f *FakeInformer) CacheDel(obj interface{}) {
+	_ = f.indexer.Delete(obj)
+	if k, err := cache.DeletionHandlingMetaNamespaceKeyFunc(obj); err == nil {
+		delete(f.snap, k)
+	}
+}
+
+// Drifted returns the keys of the cached objects that no longer equal the copy taken when the cache
+// received them: code under test wrote through an object it got from a lister (client-go: "objects
+// returned from the lister must be treated as read-only").  An observation for the evidence, not a
+// verdict: both seeded changes that the checks missed at first in wave 4 worked through such a write.
+func (f *FakeInformer) Drifted() []string {
+	var out []string
+	for _, o := range f.indexer.List() {
+		k, err := cache.MetaNamespaceKeyFunc(o)
+		if err != nil {
+			continue
+		}
+		if s, ok := f.snap[k]; ok && !reflect.DeepEqual(s, o) {
+			out = append(out, k)
+		}
+	}
+	sort.Strings(out)
+	return out
+}
 
 // CacheGet returns the cached object under the key of obj.
 func (f *FakeInformer) CacheGet(obj interface{}) (interface{}, bool) {
